@@ -260,6 +260,10 @@ func main() {
 	type pcall struct{ caller, callerRecv, method, on string }
 	var ptrCalls []pcall
 
+	// package-level variables that are sliced, address-taken, or (being slices, maps or pointers)
+	// handed to a function: the callee, or whoever keeps the slice, can change them without any
+	// assignment that names them
+	aliased := map[string]bool{}
 	// package-level variables
 	pkgVars := map[types.Object]bool{}
 	for _, name := range lib.pkg.Scope().Names() {
@@ -330,7 +334,27 @@ func main() {
 							walk(x.Body, x)
 							return false
 						}
+					case *ast.UnaryExpr:
+						if x.Op == token.AND {
+							if id, _ := rootIdent(x.X); id != nil && pkgVars[lib.info.Uses[id]] {
+								aliased[id.Name] = true
+							}
+						}
+					case *ast.SliceExpr:
+						if id, _ := rootIdent(x.X); id != nil && pkgVars[lib.info.Uses[id]] {
+							aliased[id.Name] = true
+						}
 					case *ast.CallExpr:
+						for _, arg := range x.Args {
+							if id, ok := arg.(*ast.Ident); ok && pkgVars[lib.info.Uses[id]] {
+								switch lib.info.Uses[id].Type().Underlying().(type) {
+								case *types.Slice, *types.Map, *types.Pointer:
+									if f, ok := x.Fun.(*ast.Ident); !ok || (f.Name != "len" && f.Name != "cap") {
+										aliased[id.Name] = true
+									}
+								}
+							}
+						}
 						lib.classifyCall(fn, name, x, &outputs, &panics, &errorfs, &sensitive)
 						// calls of pointer-receiver methods
 						if sel, ok := x.Fun.(*ast.SelectorExpr); ok {
@@ -456,6 +480,9 @@ func main() {
 			k := "opaque"
 			if plainType(v.Type(), lib.pkg, 0) {
 				k = "plain"
+				if aliased[name] {
+					k = "plain-aliased"
+				}
 			}
 			kinds = append(kinds, fmt.Sprintf("(%s, %s)", q(name), q(k)))
 		}
@@ -463,7 +490,9 @@ func main() {
 	b.WriteString("]\n\n")
 	b.WriteString("/-- Kind of every package-level variable: `plain` = numbers, strings, booleans, errors and arrays / slices / maps /\n")
 	b.WriteString("structs of the package built from those (data: it can only change through an assignment, and those are listed in\n")
-	b.WriteString("`sharedWrites`); `opaque` = anything that can hold hidden state (pointers, functions, channels, interfaces, types\n")
+	b.WriteString("`sharedWrites`); `plain-aliased` = plain data that the library slices, takes the address of, or hands to a\n")
+	b.WriteString("function as a slice / map / pointer (so it can change without an assignment naming it: a shared scratch buffer);\n")
+	b.WriteString("`opaque` = anything that can hold hidden state (pointers, functions, channels, interfaces, types\n")
 	b.WriteString("of other packages such as sync.Map, sync.Once, big.Float). -/\n")
 	fmt.Fprintf(&b, "def packageVarKinds : List (String × String) := [%s]\n\n", strings.Join(kinds, ", "))
 	b.WriteString("end Spg.Generated.Facts\n")
